@@ -1,10 +1,25 @@
-import sys, os, json
+import sys, os, json, time
 sys.path.insert(0,'/verif'); sys.path.insert(0,os.environ.get('VERIF_REPO','/repo'))
 from acl_sim import core, driver
-prop, idx = sys.argv[1], int(sys.argv[2])
-tier = sys.argv[3] if len(sys.argv)>3 else 'quick'
+prop = sys.argv[1]
+tier = os.environ.get('TIER','quick')
 cls = driver.registry()[prop]
-r = core.generate_run(cls, prop, tier, int(os.environ.get('VERIF_SEED','0')), idx)
-print(json.dumps(r['failure'], indent=1))
-print(json.dumps(r['cfg']))
-for i,o in enumerate(r['ops']): print(i, json.dumps(o))
+for a in sys.argv[2:]:
+    if '-' in a:
+        lo,hi = map(int,a.split('-'))
+        from collections import Counter
+        c=Counter(); slow=[]
+        for idx in range(lo,hi):
+            t=time.time(); r = core.generate_run(cls, prop, tier, int(os.environ.get('VERIF_SEED','0')), idx); dt=time.time()-t
+            f=r['failure']
+            c[(f['prop'],f['oracle'],f['op']) if f else 'ok']+=1
+            if dt>1.5: slow.append((idx,round(dt,1)))
+        for k,v in c.most_common(): print(v,k)
+        print('slow',slow)
+        continue
+    idx=int(a)
+    r = core.generate_run(cls, prop, tier, int(os.environ.get('VERIF_SEED','0')), idx)
+    print(json.dumps(r['cfg']))
+    for i,o in enumerate(r['ops']): print(i, json.dumps(o)[:400])
+    f=r['failure']
+    if f: print(f['prop'],f['oracle'],f['op'],f['disc']); print(f['msg'])
